@@ -90,6 +90,22 @@ def directed_cases():
             out.append(pipeline.Case("an%d%s" % (i, form), {"main.tsh": src.encode()},
                                      meta=dict(src=src, expected_out=exp, extra_files={"probe_exit0.sh": PROBE}, args=args, skip=False,
                                                expected_err=["E:probe_exit0.sh"])))
+    # SEVERAL program calls as arguments of one call / values of one print: each capture is its own value (round 9: C18-B, captures
+    # stored in one fixed pair of variables - the later capture overwrote the earlier one)
+    two = '@printf("%s", "a b"), @printf("%s", "*")'
+    three = '@printf("%s", "1"), "2", @printf("%s", "3") | @cat()'
+    for tag, argtxt, args in (("two", two, ["a b", "*"]), ("three", three, ["1", "2", "3"])):
+        src = '@"./probe_exit0.sh"(%s)\nprint("done")\n' % argtxt
+        out.append(pipeline.Case("caps-%s-stmt" % tag, {"main.tsh": src.encode()},
+                                 meta=dict(src=src, expected_out=probe_out(args) + "done\n", extra_files={"probe_exit0.sh": PROBE}, args=args, skip=False,
+                                           expected_err=["E:probe_exit0.sh"])))
+        src = 'so, se, code := @"./probe_exit0.sh"(%s)\nprint("[" + so + "]", code)\n' % argtxt
+        out.append(pipeline.Case("caps-%s-captured" % tag, {"main.tsh": src.encode()},
+                                 meta=dict(src=src, expected_out="[" + probe_out(args).rstrip("\n") + "] 0\n", extra_files={"probe_exit0.sh": PROBE}, args=args, skip=False,
+                                           expected_err=["E:probe_exit0.sh"])))
+    src = 'print(@sh("-c", "echo first; exit 3"), @sh("-c", "echo second; exit 4"))\nx1, y1, z1 := @sh("-c", "echo p; exit 5")\nx2, y2, z2 := @sh("-c", "echo q; exit 6")\nprint(x1, z1, x2, z2)\n'
+    out.append(pipeline.Case("caps-print-two", {"main.tsh": src.encode()},
+                             meta=dict(src=src, expected_out="first  3 second  4\np 5 q 6\n", extra_files={}, args=[], skip=False, expected_err=[])))
     return out
 
 
@@ -164,7 +180,7 @@ def run(res, b, tier, seed):
     strings = [s for _, s in gen_strings.all_strings(True)]
     cases = directed_cases() + [gen_case(rng, strings, i) for i in range(400 if tier == "quick" else 6000)]
     cases = [c for c in cases if not c.meta["skip"]]
-    pipeline.run_pipe(b, cases, "as")
+    pipeline.run_pipe(b, cases, "asw")
     pipeline.model_full(b, cases)
     dis, fails = [], []
     for c in cases:
@@ -174,6 +190,8 @@ def run(res, b, tier, seed):
             dis.append(c)
         if impl[0] != "OK":
             fails.append((c, "not transpiled: " + impl[0], None))
+    # the Batch side (no cmd.exe, no programs in the cmd model): tied to the Lean rendering of the Batch converter
+    dis += [c for c in pipeline.batch_disagreements(b, cases) if c not in dis]
     runnable = [c for c in cases if c.out.get("BASH", ("", ""))[0] == "OK"]
     runs = common.pmap_proc(_exec_chmod, [(bytes.fromhex(c.out["BASH"][1]), c.meta["extra_files"]) for c in runnable])
     for c, r in zip(runnable, runs):
@@ -188,7 +206,7 @@ def run(res, b, tier, seed):
              "0..255 encoded in their names; captured (stdout without trailing newline, status of the last command, nothing printed) or uncaptured; at top "
              "level or inside a function; distinct = distinct programs",
         samples=[dict(program=cases[0].meta["src"], expected_stdout=cases[0].meta["expected_out"])],
-        correspondence=dict(stage="AST + bash script (whole model pipeline)", compared=len(cases), disagreements=len(dis)),
+        correspondence=dict(stage="AST + bash script (whole model pipeline) + batch script (Model.ConvBatch)", compared=2 * len(cases), disagreements=len(dis)),
         oracle_failures=len(fails),
     ))
     real = []
